@@ -156,8 +156,8 @@ class C06(Prop):
         return 0 if r < 0.1 else 1 if r < 0.2 else rng.randrange(2, 10**9)
 
     def gen(self, rng, tier):
-        n = {"quick": 220, "thorough": 2500, "extended": 1200}[tier]
-        nwf = {"quick": 6, "thorough": 40, "extended": 12}[tier]
+        n = {"quick": 220, "thorough": 1200, "extended": 700}[tier]
+        nwf = {"quick": 6, "thorough": 30, "extended": 10}[tier]
         cases = []
         for _ in range(n):
             r = rng.random()
